@@ -86,196 +86,157 @@ def check(src, rep):
         rep.ok("R4", f"decoder table ({n} entries)", "every name's meter prefix and frame/notification_body/P1 suffix agree with the module and function it is paired with")
     rep.count("table_entries", n)
 
-    # field holding the remembered index
+    # ---------------------------------------------------------------- R1-R3, R5: the transition function of the AutoDecoder, tabulated (E-ABS)
+    # state = the remembered index; input = which table decoders accept the payload (and with what); the decoders themselves are oracles
+    from sa.abseval import AbsEval, AObj, AbsRaise, Sym
+    from sa.sveval import Res
     mem = [a for a in C.field_inits]
     rep.require(len(mem) == 1, f"AutoDecoder has fields {mem}; cannot bind the remembered-index field")
     MEM = mem[0]
-    MEMF = ("f0", SELF, MEM)
-    TABLE = ("f0", ("class", CLS), "payload_decoder_functions")
-    tab_val = [(nm, ("fn", i)) for i, (nm, _) in enumerate(table)]
+    p1_idx = names.index("P1") if "P1" in names else None
+    REJECT = ["ValueError", "ConstructError", "StreamError", "ConstError", "CheckError", "SelectError", "ExplicitError"]
+    state = {"accept": set(), "calls": []}
 
-    summaries = {}
-    for mname in ("decode_message_payload", "decode_message"):
-        fn = C.methods[mname]
-        E = Engine(M)
-        W = Walker(E, fn)
-        loops = []
-        ends = W.walk(fn.node.body, [Path()], loops)
-        at = f"{MOD}.AutoDecoder.{mname}"
-        if not loops or len({id(l.node) for l in loops}) != 1 or any(l.children for l in loops):
-            raise Undecided(f"{mname} is not a single rotation loop")
-        L = loops[0]
-        all_recs = loops
-        # writes / decoder calls outside the loop
-        for p in ends:
-            for e in p.effects:
-                if e[0] == "write" and e[1] == SELF and e[2] == MEM:
-                    rep.violation("R2", at, "memory-write-outside-success", "the remembered decoder index is written outside the success path of a decoder call "
-                                  "(previous_success_decoder changes although nobody accepted the payload)", file, e[-1], witness=f"{MEM} := {show_sv(e[3])[:60]}")
-                if e[0] == "calldyn" or (e[0] == "call" and "decode" in str(e[1])):
-                    rep.violation("R1", at, "decoder-call-outside-loop", "a decoder is called outside the rotation loop (its exceptions and its result bypass the first-acceptor-wins protocol)", file, e[-1],
-                                  witness=show_sv(e)[:100])
-            if p.status == "return" and p.ret not in (None, ("c", None)) and any(e[0] == "loop-ref" for e in p.effects):
-                rep.violation("R2", at, "return-after-loop", "after the loop is exhausted something other than None is returned", file, fn.node.lineno, witness=show_sv(p.ret)[:80])
-        def own_exc(p, rec):
-            return any(g[0] == "exc" for g, _, _ in p.guards[len(rec.entry.guards):])
-        succ = [p for rec in all_recs for p in rec.body if not own_exc(p, rec)]
-        hand = [p for rec in all_recs for p in rec.body if own_exc(p, rec)]
-        rec_of = {id(p): rec for rec in all_recs for p in rec.body}
-        handler_classes = sorted({g[1] for p in hand for g, _, _ in p.guards if g[0] == "exc"})
-        callees = []
-        okp = True
-        for p in succ:
-            eff = [e for e in p.effects[_after_enter(p):] if e[0] in ("calldyn", "call", "callm", "write")]
-            calls = [e for e in eff if e[0] in ("calldyn",) or (e[0] in ("call", "callm") and "decode" in str(e[1] if e[0] == "call" else e[2]))]
-            writes = [e for e in eff if e[0] == "write" and e[2] == MEM]
-            if len(calls) != 1 or len(writes) != 1 or p.status != "return":
-                okp = False
-                rep.violation("R2", at, "success-path-shape", "the success path is not `call the decoder; remember its index; return its result`", file, fn.node.lineno,
-                              witness=f"{len(calls)} decoder call(s), {len(writes)} memory write(s), status {p.status}")
-                continue
-            call, wr = calls[0], writes[0]
-            if eff.index(wr) < eff.index(call):
-                okp = False
-                rep.violation("R2", at, "memory-before-call", "the index is remembered before the decoder has accepted the payload", file, wr[-1])
-            rv = p.ret
-            if not _mentions(rv, lambda s: s == call or (s[0] == call[0] and s[1:3] == call[1:3])):
-                okp = False
-                rep.violation("R2", at, "returns-other-value", "the value returned on success is not the result of the decoder call", file, fn.node.lineno, witness=show_sv(rv)[:80])
-            callees.append((p, call, wr))
-        for p in hand:
-            if p.status != "run" or any(e[0] == "write" and e[2] == MEM for e in p.effects[_after_enter(p):]):
-                okp = False
-                rep.violation("R2", at, "handler-path", "the rejection handler returns or writes the remembered index instead of moving on to the next decoder", file, fn.node.lineno, witness=p.status)
-        if not succ or not hand:
-            raise Undecided(f"{mname}: cannot find success and handler paths of the decoder call")
-        if okp:
-            rep.ok("R2", mname, "success path = decoder call, then remember, then return that result; handler path continues with the next decoder without writing; None only after the loop")
-        # ---------------------------------------------------------------- R1: rotation tabulated for every remembered value
-        prevs = [None] + list(range(n))
-        bad1 = None
-        cells = 0
-        payload_p = [("p", a) for a in fn.params]
-        for prev in prevs:
-          covered = False
-          for rec in all_recs:
-            env0 = {MEMF: prev, TABLE: tab_val}
-            feasible = True
-            for g, pol, _ in rec.entry.guards:
-                try:
-                    if bool(ev(g, env0)) != pol:
-                        feasible = False
-                        break
-                except CannotEval:
-                    pass  # a condition on the input (e.g. message.payload): both ways possible
-            if not feasible:
-                continue
-            covered = True
-            try:
-                elems = ev(rec.iter_sv, env0)
-            except CannotEval as e:
-                raise Undecided(f"{mname}: loop iterable outside the evaluable subset ({e})")
-            tried = []
-            for x in elems:
-                env = dict(env0)
-                env[rec.var] = x
-                idxs = set()
-                for p, call, wr in [c for c in callees if rec_of.get(id(c[0])) is rec]:
-                    # skip success paths whose own guards exclude this element (e.g. the P1 special case) -- guards are evaluated when possible
-                    try:
-                        callee = call[1] if call[0] == "calldyn" else None
-                        if callee is None:
-                            continue
-                        fnv = ev(callee, env)
-                        stored = ev(wr[3], env)
-                    except CannotEval as e:
-                        raise Undecided(f"{mname}: index expression outside the evaluable subset ({e})")
-                    if not (isinstance(fnv, tuple) and fnv and fnv[0] == "fn"):
-                        raise Undecided(f"{mname}: decoder callee does not come from the table")
-                    idxs.add(fnv[1])
-                    cells += 1
-                    if stored != fnv[1] and bad1 is None:
-                        bad1 = ("stored-index", prev, f"decoder #{fnv[1]} ({names[fnv[1]]}) succeeds but index {stored} is remembered"
-                                f" ({names[stored] if isinstance(stored, int) and 0 <= stored < n else '?'})")
-                if len(idxs) != 1:
-                    raise Undecided(f"{mname}: an iteration can call different table entries")
-                tried.append(idxs.pop())
-            start = prev if prev else 0
-            if bad1 is None and (sorted(tried) != list(range(n)) or tried[0] != start):
-                miss = [names[i] for i in range(n) if i not in tried]
-                bad1 = ("rotation", prev, f"tries {tried} (expected a rotation of 0..{n-1} starting at {start})" + (f"; never tried: {miss}" if miss else ""))
-          if not covered:
-            raise Undecided(f"{mname}: no loop entry path is feasible for remembered={prev}")
-        rep.count("rotation_cells", cells)
-        if bad1:
-            key, prev, txt = bad1
-            rep.violation("R1" if key == "rotation" else "R2", at, key, "with a remembered decoder the loop does not try every decoder once starting with the remembered one" if key == "rotation"
-                          else "the index remembered on success is not the table index of the decoder that succeeded", file, L.node.lineno, witness=f"remembered={prev}: {txt}")
-        else:
-            rep.ok("R1", f"{mname} rotation", f"for each of the {len(prevs)} remembered values the loop calls table entries (start, start+1, ..., wrapping) - a bijection on the {n} entries; the stored index is the callee's own index")
-        summaries[mname] = (L, callees, handler_classes, fn)
-    # ---------------------------------------------------------------- R5: sibling agreement
-    Lp, cp, hp, fp = summaries["decode_message_payload"]
-    Lm, cm, hm, fm = summaries["decode_message"]
-    if hp != hm:
-        rep.violation("R5", f"{MOD}.AutoDecoder.decode_message", "handler-classes", "the two decode methods reject on different exception classes", file, fm.node.lineno, witness=f"{hp} vs {hm}")
-    msg = ("p", fm.params[0])
-    pay = ("p", fp.params[0])
-    ok5 = True
-    # argument of the table decoder
-    for p, call, wr in cp:
-        if call[2] != (pay,):
-            ok5 = False
-            rep.violation("R5", f"{MOD}.AutoDecoder.decode_message_payload", "decoder-argument", "the decoder is not called with the payload", file, fp.node.lineno, witness=show_sv(call)[:80])
-    for p, call, wr in cm:
-        a = call[2]
-        if not (len(a) == 1 and attr_of(strip_epoch(a[0])) == (msg, "payload")):
-            ok5 = False
-            rep.violation("R5", f"{MOD}.AutoDecoder.decode_message", "decoder-argument", "decode_message does not hand message.payload to the table decoder (results differ from decode_message_payload)",
-                          file, fm.node.lineno, witness=show_sv(call)[:100])
-        # returned value: ite(name == 'P1' and isinstance(message, DataReadout), decode_p1_readout(message), decoder(payload)) or the plain call
-        rv = p.ret
-        if rv[0] == "ite":
-            cond, a1, a2 = rv[1], rv[2], rv[3]
-            ctext = show_sv(cond)
-            is_p1 = "'P1'" in ctext and "isinstance" in ctext and "DataReadout" in ctext
-            whole = _mentions(a1, lambda s: s[0] == "call" and "decode_p1_readout" in str(s[1]) and "content" not in str(s[1]))
-            if not (is_p1 and whole):
-                ok5 = False
-                rep.violation("R5", f"{MOD}.AutoDecoder.decode_message", "special-case", "decode_message deviates from the payload loop for something other than a P1 DataReadout", file, fm.node.lineno, witness=ctext[:120])
-    # early exit on empty payload
-    fr_paths = Engine(M).run(fm)
-    early = [p for p in fr_paths if p.status == "return" and not any(e[0] == "loop" for e in p.effects)]
-    if len(early) == 1 and early[0].ret == ("c", None) and len(early[0].guards) == 1 and attr_of(strip_epoch(early[0].guards[0][0])) == (msg, "payload") and early[0].guards[0][1] is False:
-        pass
-    elif early:
-        ok5 = False
-        rep.violation("R5", f"{MOD}.AutoDecoder.decode_message", "early-exit", "decode_message returns early on a condition other than an empty/absent payload", file, fm.node.lineno)
-    if strip_epoch(Lp.iter_sv) != strip_epoch(Lm.iter_sv) and (Lp.iter_sv[0:2] != Lm.iter_sv[0:2]):
-        ok5 = False
-        rep.violation("R5", f"{MOD}.AutoDecoder.decode_message", "different-loop", "the two decode methods iterate differently", file, fm.node.lineno)
-    if ok5 and hp == hm:
-        rep.ok("R5", "decode_message vs decode_message_payload", "same rotation, same handler classes, decoder(message.payload); the only difference is the whole-readout decoder for the 'P1' entry and a DataReadout; empty payload -> None")
-    # ---------------------------------------------------------------- R3
-    fn = C.methods["previous_success_decoder"]
-    ps = Engine(M).run(fn)
-    ok3 = len(ps) == 2
-    for p in ps:
-        isnone = None
-        for g, pol, _ in p.guards:
-            if g[0] == "cmp" and g[1] == "Is" and g[2] == MEMF and g[3] == ("c", None):
-                isnone = pol
-        if isnone is True:
-            ok3 = ok3 and p.ret == ("c", None)
-        elif isnone is False:
-            ok3 = ok3 and p.ret == ("sub", ("sub", TABLE, MEMF), ("c", 0))
-        else:
-            ok3 = False
-    if ok3:
-        rep.ok("R3", "previous_success_decoder", "name at the remembered index; None when nothing was remembered")
+    def make_oracle(k):
+        def oracle(args, kw):
+            state["calls"].append((k, tuple(args)))
+            if k in state["accept"]:
+                return {} if k % 3 == 2 else Res("result", k)  # an accepting decoder may return an empty dictionary
+            raise AbsRaise(REJECT[(k + len(state["accept"])) % len(REJECT)])
+        return oracle
+
+    def whole_p1(args, kw):
+        state["calls"].append(("p1-whole", tuple(args)))
+        if p1_idx in state["accept"]:
+            return Res("result-p1-whole")
+        raise AbsRaise("ValueError")
+
+    AE = AbsEval(M)
+    for k, (nm, fr) in enumerate(table):
+        AE.func_hooks[(fr.mod, fr.node.name)] = make_oracle(k)
+    AE.func_hooks[("dlde", "decode_p1_readout")] = whole_p1
+
+    def expected(prev, accept, whole=False):
+        start = prev if prev else 0
+        for off in range(n):
+            k = (start + off) % n
+            if k in accept:
+                if whole and k == p1_idx:
+                    return Res("result-p1-whole"), k
+                return ({} if k % 3 == 2 else Res("result", k)), k
+        return None, prev
+
+    thorough = rep.tier == "thorough"
+    allp = [set(i for i in range(n) if (mask >> i) & 1) for mask in range(1 << n)]
+    patterns = allp if thorough else [p_ for p_ in allp if len(p_) <= 2 or len(p_) == n]
+    PAY = b"\x01payload"
+    fnp, fnm, fnn = C.methods["decode_message_payload"], C.methods["decode_message"], C.methods["previous_success_decoder"]
+    cells = 0
+    viol = {}
+
+    def V(rule, tag, text, at, witness):
+        if (rule, tag) not in viol:
+            viol[(rule, tag)] = 1
+            rep.violation(rule, f"{MOD}.AutoDecoder.{at.name}", tag, text, file, at.node.lineno, witness=witness)
+
+    und = None
+    for prev in [None] + list(range(n)):
+        for accept in patterns:
+            # decode_message_payload
+            for variant in ("payload", "message-frame", "message-invalid-frame", "message-readout"):
+                obj = AObj("AutoDecoder", {MEM: prev}, cls_key=CLS)
+                state["accept"], state["calls"] = accept, []
+                if variant == "payload":
+                    res = AE.apply(fnp, [obj, PAY])
+                    whole = False
+                else:
+                    whole = variant == "message-readout"
+                    msg = AObj("DataReadout" if whole else "HdlcFrame", {"payload": PAY, "is_valid": variant != "message-invalid-frame", "as_bytes": b"\x7ewhole message\x7e"})
+                    res = AE.apply(fnm, [obj, msg])
+                cells += 1
+                desc = f"remembered={prev if prev is None else names[prev]}, accepting decoders={[names[i] for i in sorted(accept)]}, {variant}"
+                if res[0] in ("undecided", "branch"):
+                    if res[0] == "branch" and isinstance(res[1], Res) and res[1].op == "result":
+                        V("R2", "success-by-truthiness", "success of a decoder is decided from its result instead of from its returning normally (an accepting decoder's empty dictionary counts as a rejection)",
+                          fnp if variant == "payload" else fnm, desc)
+                        continue
+                    und = f"{desc}: {res[1]!r}"
+                    break
+                want, new_prev = expected(prev, accept, whole)
+                at = fnp if variant == "payload" else fnm
+                if res[0] == "raise":
+                    V("R2", "exception-escapes", f"{res[1]} raised by a rejecting decoder leaves the AutoDecoder instead of moving on to the next decoder", at, desc)
+                    continue
+                got = res[1]
+                if got != want or (want is None) != (got is None):
+                    if want is None:
+                        V("R2", "return-after-loop", "something other than None is returned although no decoder accepted the payload", at, f"{desc}: returns {got!r}")
+                    elif got is None:
+                        tried = [c[0] for c in state["calls"]]
+                        V("R1" if variant == "payload" else "R5", "rotation" if variant == "payload" else "message-differs",
+                          "None is returned although a decoder accepts the payload (not every decoder is tried, or an accepting result is discarded)" if variant == "payload" else
+                          "decode_message gives None where decode_message_payload decodes the same payload (it must not depend on anything but the payload, e.g. not on is_valid)", at, f"{desc}: tried {tried}")
+                    elif variant != "payload" and not whole:
+                        V("R5", "message-differs", "decode_message does not give the result decode_message_payload gives for the payload", at, f"{desc}: returns {got!r}, expected {want!r}")
+                    elif whole:
+                        V("R5", "special-case", "for a P1 DataReadout the 'P1' entry must use the whole-readout decoder, every other entry the table decoder on the payload", at, f"{desc}: returns {got!r}, expected {want!r}")
+                    else:
+                        V("R1", "rotation", "the result is not that of the first accepting decoder in rotation order starting with the remembered one", at, f"{desc}: returns {got!r}, expected {want!r}")
+                if obj.attrs.get(MEM) != new_prev:
+                    V("R2", "stored-index" if want is not None else "memory-write-outside-success",
+                      "the index remembered on success is not the table index of the decoder that succeeded" if want is not None else
+                      "the remembered decoder index changes although nobody accepted the payload", at, f"{desc}: remembered becomes {obj.attrs.get(MEM)!r}, expected {new_prev!r}")
+                if set(obj.attrs) != {MEM}:
+                    V("R2", "extra-state", f"the AutoDecoder keeps additional state {sorted(set(obj.attrs) - {MEM})}: results can depend on more of the history than the last successful decoder", at, desc)
+                # every decoder call received the payload itself
+                for k, args_ in state["calls"]:
+                    okarg = (args_ == (PAY,)) if k != "p1-whole" else (len(args_) == 1 and isinstance(args_[0], AObj))
+                    if not okarg:
+                        V("R5", "decoder-argument", "a decoder is not called with the payload (the whole-readout decoder: with the readout)", at, f"{desc}: decoder {k} called with {args_!r}"[:200])
+                # first call is the remembered decoder
+                if state["calls"] and accept is not None:
+                    first = state["calls"][0][0]
+                    start = prev if prev else 0
+                    if first not in (start, "p1-whole") or (first == "p1-whole" and start != p1_idx):
+                        V("R1", "rotation", "the remembered decoder is not the first one tried", at, f"{desc}: first tried {first}")
+            if und:
+                break
+        if und:
+            break
+    rep.count("rotation_cells", cells)
+    # empty / absent payload
+    if not und:
+        for pay in (None, b""):
+            obj = AObj("AutoDecoder", {MEM: 3}, cls_key=CLS)
+            state["accept"], state["calls"] = set(range(n)), []
+            res = AE.apply(fnm, [obj, AObj("HdlcFrame", {"payload": pay, "is_valid": True})])
+            if res[0] != "value" or res[1] is not None or obj.attrs.get(MEM) != 3:
+                if res[0] in ("undecided", "branch"):
+                    und = f"message without payload: {res[1]!r}"
+                else:
+                    V("R5", "early-exit", "a message without payload is not answered with None (leaving the remembered decoder alone)", fnm, f"payload={pay!r}: {res}")
+        # previous_success_decoder
+        for prev in [None] + list(range(n)):
+            res = AE.apply(fnn, [AObj("AutoDecoder", {MEM: prev}, cls_key=CLS)])
+            want = None if prev is None else names[prev]
+            if res[0] in ("undecided", "branch"):
+                und = f"previous_success_decoder: {res[1]!r}"
+            elif res[0] != "value" or res[1] != want:
+                V("R3", "name-lookup", "previous_success_decoder does not give the name at the remembered index (None when nothing was remembered)", fnn, f"remembered={prev}: {res}")
+    if und:
+        rep.undecide(f"R1 the AutoDecoder is outside the interpreted subset / branches on an undetermined condition for {und}")
     else:
-        rep.violation("R3", f"{MOD}.AutoDecoder.previous_success_decoder", "name-lookup", "previous_success_decoder does not read the name at the remembered index", file, fn.node.lineno,
-                      witness="; ".join(show_sv(p.ret)[:60] if p.ret else "None" for p in ps))
+        by = {r for r, _ in viol}
+        if "R1" not in by:
+            rep.ok("R1", "rotation", f"for each of the {n + 1} remembered values and each of the {len(patterns)} acceptance patterns the result is that of the first accepting decoder in rotation order from the remembered one ({cells} cells)")
+        if "R2" not in by:
+            rep.ok("R2", "first acceptor wins", "the remembered index becomes the table index of the decoder whose result is returned, is untouched when nobody accepts, and is the only state; rejections of every class named in the handler move on to the next decoder; None only when nobody accepts")
+        if "R3" not in by:
+            rep.ok("R3", "previous_success_decoder", "name at the remembered index; None when nothing was remembered")
+        if "R5" not in by:
+            rep.ok("R5", "decode_message vs decode_message_payload", "same transition function on message.payload (independent of is_valid); the only difference is the whole-readout decoder for the 'P1' entry and a DataReadout; no payload -> None")
+    from sa.cross import include
+    include(rep, src, "C15", {"R1"}, "R2", "no exception of a decoder escapes the AutoDecoder (every class a decoder can raise is named in the handler)")
     # ---------------------------------------------------------------- R6: first-octet discrimination (E-CONS)
     try:
         from sa.consir import World, first_octets
